@@ -512,6 +512,16 @@ func (ms *Modules) Process() []error {
 		}
 	}
 
+	// Applying deviations may have recorded errors in the trees as well
+	// (e.g., on the parent of a node that was to be removed twice); what was
+	// collected before is not repeated, errorSort drops duplicates.
+	for _, m := range ms.Modules {
+		errs = append(errs, ToEntry(m).GetErrors()...)
+	}
+	for _, m := range ms.SubModules {
+		errs = append(errs, ToEntry(m).GetErrors()...)
+	}
+
 	return errorSort(errs)
 }
 
